@@ -89,6 +89,13 @@ func Generic(x *vrt.Exec, o Opts) []*engine.Finding {
 				parts = append(parts, b.Kind+"@"+b.Site)
 			}
 		}
+		if len(parts) == 0 {
+			for _, b := range x.BlockedOps {
+				if !b.Daemon {
+					parts = append(parts, b.Kind+"@"+b.Site)
+				}
+			}
+		}
 		sort.Strings(parts)
 		parts = uniq(parts)
 		out = append(out, &engine.Finding{Sig: kind + strings.Join(parts, " | ") + "}",
